@@ -1306,3 +1306,23 @@ Definition ex_tr_running : list label :=
 Definition ex_tr_atdeliver : list label :=
   ex_tr_running ++ [LGate [91;93]%N (ORes [50%N]); LRelHandled 0].
 Definition ex_tr_delivered : list label := ex_tr_atdeliver ++ [LRelDeliver 0].
+
+(** * Settling never touches an existing task *)
+Definition keeps_tasks (a b : state) : Prop := forall k t, nth_error (tasks a) k = Some t -> nth_error (tasks b) k = Some t.
+
+Lemma settle1_keeps s s' os : settle1 s = Some (s', os) -> keeps_tasks s s'.
+Proof.
+  intros H. apply settle1_inv in H. destruct H; intros k t E; cbn; auto.
+  unfold dequeue. destruct (inq s) as [|[b ms] q]; [destruct (running s); auto|].
+  cbn. apply nth_error_app_old; auto.
+Qed.
+
+Lemma settle_keeps : forall fuel s acc s' os, settle fuel s acc = (s', os) -> keeps_tasks s s'.
+Proof.
+  induction fuel as [|f IH]; cbn; intros s acc s' os H.
+  - injection H as <- _. intros k t E; auto.
+  - destruct (settle1 s) as [[s1 os1]|] eqn:E.
+    + apply settle1_keeps in E. apply IH in H. intros k t Ek. auto.
+    + injection H as <- _. intros k t Ek; auto.
+Qed.
+
